@@ -15,7 +15,7 @@ import ast
 from ..core import AnalysisError, finish, unparse, where
 from ..effects import Effects, container_evident, _mutable_ctor
 from ..dataflow import chain, call_name
-from ..util import qual
+from ..util import qual, formals
 
 PACKAGES = ("rig",)     # the whole package (scripts and wizard included)
 
@@ -91,6 +91,52 @@ def _public(q):
     return not any(part.startswith("_") and not (
         part.startswith("__") and part.endswith("__"))
         for part in q.split("."))
+
+
+def r1_for(program, rep, modules):
+    """R1 (no public function changes an argument in place, to depth 2 and
+    through callees) for the functions of ``modules`` only: run by the checks
+    of properties whose pipeline hands one object to several stages (a
+    constraint list re-written in place by the placer is what the router is
+    then given)."""
+    eff = Effects(program)
+    n = 0
+    for m in modules:
+        program.module(m)
+        for q, fn in program.functions(m):
+            local_def = "." in q and isinstance(
+                program.modules[m].defs.get(q.rsplit(".", 1)[0]),
+                ast.FunctionDef)
+            if not _public(q) or local_def:
+                continue
+            inst = "%s:%s" % (m, q)
+            evs = eff.analyse(fn)
+            a = fn.args
+            params = [x.arg for x in a.posonlyargs + a.args + a.kwonlyargs]
+            hit = {}
+            for e in evs:
+                if e.kind != "mutate":
+                    continue
+                for o in e.origins:
+                    if o[0] == "P" and o[1] not in ("self", "cls") and \
+                            o[2] <= 2:
+                        hit.setdefault(o[1], (e, o))
+            for p_ in params:
+                if p_ in ("self", "cls"):
+                    continue
+                n += 1
+                if p_ in hit and (inst, p_) not in ALLOW_MUTATE:
+                    e, o = hit[p_]
+                    rep.bad("C17-R1", inst, "mutates argument %s: %s" % (
+                        p_, e.text), "%s mutates its argument '%s' in place "
+                        "(%s, %d level(s) inside the object passed in): the "
+                        "caller's object is what later stages are given" % (
+                            q, p_, e.text, o[2]), e.node)
+                else:
+                    rep.ok("C17-R1", inst, "argument %s is not changed in "
+                           "place (or by documented contract)" % p_, fn)
+    if n == 0:
+        raise AnalysisError("no public function found in %s" % (modules,))
 
 
 def check(program, rep):
@@ -322,6 +368,34 @@ def check(program, rep):
                     rep.bad("C17-R4", inst, "foreign RNG %s" % unparse(
                         bad.func), "%s draws from %s instead of the "
                         "caller's generator" % (q, unparse(bad.func)), bad)
+    # a generator object kept at module level (X = random.Random(...)) and
+    # drawn from by a function: its state is what earlier calls left of it,
+    # and seeding the global random module no longer pins the results
+    for m in mods:
+        mod_ = program.modules[m]
+        gens = {}
+        for st_ in mod_.tree.body:
+            if isinstance(st_, ast.Assign) and len(st_.targets) == 1 and \
+                    isinstance(st_.targets[0], ast.Name) and \
+                    isinstance(st_.value, ast.Call) and \
+                    call_name(st_.value)[0] in ("Random", "SystemRandom",
+                                                "RandomState", "default_rng"):
+                gens[st_.targets[0].id] = st_
+        for q, fn in program.functions(m):
+            for n in ast.walk(fn):
+                if isinstance(n, ast.Call):
+                    nm, rc = call_name(n)
+                    if nm in RNG_METHODS and rc is not None and \
+                            chain(rc) in gens and chain(rc) not in formals(
+                                fn):
+                        rep.bad("C17-R4", "%s:%s" % (m, q),
+                                "module-level generator %s" % chain(rc),
+                                "%s draws from %s, a generator object kept "
+                                "at module level: its state is left over "
+                                "from earlier calls, so equal calls give "
+                                "different results and seeding the random "
+                                "module does not pin them" % (q, chain(rc)),
+                                n)
     # the model objects handed to the place-and-route functions (machine,
     # nets, routing trees): only their constructor and their item-assignment
     # write the instance; a query that stores something on the instance makes
